@@ -333,6 +333,14 @@ func stepFamily(isCtx bool) *family {
 			emit("rule-level-override(expressions:none->deny-required)", base, p.with(merge(baseOv(sc), deny)), in, in)
 			emit("rule-level-override(expressions:allow-required->deny-required)", p.with(merge(baseOv(sc), allow)), p.with(merge(baseOv(sc), deny)), in, in)
 
+			// an answer without a body (204): there is nothing the expression could hold for, the first and the repeated
+			// request are refused alike
+			empty := proto(sc, "m1", nil, "ab", "c", []string{"s1", "s2"})
+			eep, _ := empty.Config["endpoint"].(map[string]any)
+			eep["url"] = "http://" + hostAuthz + "/empty"
+			emit("identical(rule-level-expressions:allow-required)/answer-without-body", empty.with(merge(baseOv(sc), allow)),
+				empty.with(merge(baseOv(sc), allow)), in, in.clone())
+
 			// expressions configured in the catalogue: a rule redefining them primes the cache, a rule using the
 			// catalogue's expressions unchanged is judged (and the other way round)
 			withProtoExpr := func(e map[string]any) MechSpec {
@@ -1082,6 +1090,10 @@ func httpCacheFamily() *family {
 		emit("subject-id", func(i *Input) { i.SubjectID = "bob" })
 		emit("forwarded-header-value", func(i *Input) { i.Headers["X-Tenant"] = "t2" })
 		emit("forwarded-cookie-value", func(i *Input) { i.Cookies["session"] = "s2" })
+		// the same letters in another case (paths and queries are case-sensitive)
+		if sc.Flow == "url" {
+			emit("subject-id-in-other-case", func(i *Input) { i.SubjectID = strings.ToUpper(i.SubjectID) })
+		}
 
 		// another origin under the same host name, same path and query: another system
 		for _, o := range []struct{ kind, origin string }{
